@@ -137,6 +137,11 @@ func (sr *SoftResource) SetID(id string) {
 func (sr *SoftResource) SetType(typ *Type) {
 	sr.check()
 	sr.Type = typ
+
+	// Drop the values of the fields the new type does not have now, not at the
+	// next read: a field of the same name added later starts from its zero
+	// value whether or not the resource was read in between.
+	sr.check()
 }
 
 // Set sets the value associated to the field named key to v.
